@@ -39,13 +39,13 @@ type CallInfo struct {
 
 // Sub is a payload message submitted by a script.
 type Sub struct {
-	ID      string // message id (payload text)
-	Call    string
-	Signer  string // peer name whose key signed it ("" = unsigned/tampered)
-	Valid   bool   // signature valid for Signer
-	Epoch   uint64
-	Seqno   uint64
-	LogIdx  int
+	ID     string // message id (payload text)
+	Call   string
+	Signer string // peer name whose key signed it ("" = unsigned/tampered)
+	Valid  bool   // signature valid for Signer
+	Epoch  uint64
+	Seqno  uint64
+	LogIdx int
 }
 
 // World is one execution's relay + scripted clients.
